@@ -78,25 +78,28 @@ def place(tag, node):
 
 
 def print_lines(n, out, multiline=False):
-    """one element per line; returns nothing, annotates n['_l0'] (line of '<') and n['_l1'] (line of the start tag's '>')"""
+    """one element per line; returns nothing, annotates n['_l0'] (line of '<') and n['_l1'] (line of the start tag's '>');
+    attribute values and text content may themselves contain line breaks"""
+    def emit(text):
+        out.extend(text.split("\n"))
     n["_l0"] = len(out) + 1
     at = ['%s="%s"' % (k, docgen.esc_attr(v)) for k, v in n["attrs"].items()]
     if multiline and at:
-        out.append("<" + n["tag"])
+        emit("<" + n["tag"])
         for a in at[:-1]:
-            out.append("    " + a)
+            emit("    " + a)
         last = "    " + at[-1]
     else:
         last = "<" + n["tag"] + "".join(" " + a for a in at)
     if not n["children"] and n.get("text") is None:
-        out.append(last + " />")
+        emit(last + " />")
         n["_l1"] = len(out)
         return
     if n.get("text") is not None and not n["children"]:
-        n["_l1"] = len(out) + 1
-        out.extend((last + ">" + n["text"] + "</" + n["tag"] + ">").split("\n"))     # the content may span lines
+        n["_l1"] = len(out) + 1 + last.count("\n")
+        emit(last + ">" + n["text"] + "</" + n["tag"] + ">")
         return
-    out.append(last + ">")
+    emit(last + ">")
     n["_l1"] = len(out)
     for c in n["children"]:
         print_lines(c, out, multiline)
@@ -178,6 +181,9 @@ def run(ck):
         nodes = [n for n in docgen.walk(d)]
         for n in ck.rng.sample(nodes, min(len(nodes), ck.rng.choice([0, 1, 2, 3]))):
             n["attrs"][ck.rng.choice(["bogus", "colour", "data-ok", "aria-x", "widht", "Padding"])] = "1"
+        for n in nodes:      # attribute values may span lines
+            if n["tag"] in ("mj-image", "mj-button", "mj-section", "mj-column", "mj-text") and ck.rng.random() < 0.08:
+                n["attrs"]["css-class"] = "first\n  second"
         docs.append((d, ck.rng.random() < 0.5, ck.rng.choice([0, 0, 1, 3, 5]), "generated"))
     jobs, cases = [], []
     for i, (d, multi, junk, kind) in enumerate(docs):
